@@ -1,5 +1,112 @@
-/- C12 — theorems under construction. -/
-import BEI.Model.App
+/-
+  C12 — Every condition and modifier is invoked exactly once per frame, in order: per input (past the initial
+  held-input suppression) its modifiers then its conditions in declaration order, inputs in binding order, then the
+  action-level modifiers, then the action-level conditions — independent of results, blockers, consumption, state and
+  activity (no hypothesis about any of them appears below).
+-/
+import BEI.Proofs.Update
+import BEI.Model.Conditions
 namespace BEI.Props.C12
-theorem placeholder_true : True := trivial
+open BEI
+
+/-- the canonical invocation list of one action for a reader `r` (only its raw input and gamepad matter) -/
+def canonIds (r : Reader) (ab : ActionBind) : List Nat :=
+  ab.bindings.flatMap (fun b => if suppressed r b then [] else b.mods.map (·.id) ++ b.conds.map (·.id))
+    ++ ab.mods.map (·.id) ++ ab.conds.map (·.id)
+
+/-- (1) one action: the log of `ActionBind::update` is exactly the canonical list, each entry once -/
+theorem invocation_log_canonical (ab : ActionBind) (r : Reader) (av : ActionsView) (t : Tick) (es : List Nat)
+    (o : ActionBind.Out) (h : ab.update r av t es = some o) :
+    o.log.map Inv.id = canonIds r ab := by
+  obtain ⟨_, _, _, _, hchar⟩ := update_char ab r av t es o h
+  obtain ⟨_, _, _, _, hlog, _⟩ := hchar
+  rw [hlog, evalLog_ids]
+  rfl
+
+/-- the objects stay in place: after the update the action holds the same modifiers and conditions (same ids, same
+    order, with their updated private state), so stateful ones are driven again next frame -/
+theorem objects_persist (ab : ActionBind) (r : Reader) (av : ActionsView) (t : Tick) (es : List Nat)
+    (o : ActionBind.Out) (h : ab.update r av t es = some o) :
+    o.bind.mods.map (·.id) = ab.mods.map (·.id) ∧ o.bind.conds.map (·.id) = ab.conds.map (·.id)
+    ∧ o.bind.bindings.map (fun b => (b.input, b.mods.map (·.id), b.conds.map (·.id)))
+        = ab.bindings.map (fun b => (b.input, b.mods.map (·.id), b.conds.map (·.id))) := by
+  obtain ⟨_, _, _, _, hchar⟩ := update_char ab r av t es o h
+  obtain ⟨_, _, _, _, _, hm, hc, hb⟩ := hchar
+  refine ⟨hm, hc, ?_⟩
+  rw [hb, List.map_map]
+  apply List.map_congr_left
+  intro b _
+  simp only [Function.comp]
+  unfold evalInput
+  split
+  · rfl
+  · have hm := applyModifiers_spec av t b.mods (Tracker.new (r.value b.input)) [] (TInv.new _)
+    have hc := applyConditions_spec av t b.conds ((Tracker.new (r.value b.input)).applyModifiers av t b.mods).1 [] hm.1
+    simp only [hm.2.2.2, hc.2.2.2.1]
+
+/-- whether a binding is suppressed depends only on the raw input and the gamepad selection — not on consumption -/
+theorem activeUnconsumed_consume (r : Reader) (i j : Input) : (r.consume i).activeUnconsumed j = r.activeUnconsumed j := by
+  cases i <;> cases j <;> rfl
+
+theorem suppressed_foldl_consume (is : List Input) : ∀ (r : Reader) (b : InputBind),
+    suppressed (is.foldl Reader.consume r) b = suppressed r b := by
+  induction is with
+  | nil => intro r b; rfl
+  | cons i is ih =>
+    intro r b
+    simp only [List.foldl_cons]
+    rw [ih]
+    simp [suppressed, activeUnconsumed_consume]
+
+theorem canonIds_foldl_consume (is : List Input) (r : Reader) (ab : ActionBind) :
+    canonIds (is.foldl Reader.consume r) ab = canonIds r ab := by
+  simp only [canonIds, suppressed_foldl_consume]
+
+/-- (2) a whole context instance: the log is the concatenation of the canonical lists of its actions in binding order;
+    consumption by earlier actions (or earlier contexts) changes nothing -/
+theorem instance_log_canonical (t : Tick) (es : List Nat) :
+    ∀ (bs : List ActionBind) (r : Reader) (av : ActionsView) bs' r' av' dl lg,
+      ContextInstance.loopActions r av t es bs = some (bs', r', av', dl, lg) →
+      lg.map Inv.id = bs.flatMap (canonIds r)
+      ∧ (∀ ab, canonIds r' ab = canonIds r ab) := by
+  intro bs
+  induction bs with
+  | nil =>
+    intro r av bs' r' av' dl lg h
+    simp [ContextInstance.loopActions] at h
+    obtain ⟨_, rfl, _, _, rfl⟩ := h
+    simp
+  | cons ab rest ih =>
+    intro r av bs' r' av' dl lg h
+    simp only [ContextInstance.loopActions] at h
+    split at h
+    · cases h
+    · rename_i o ho
+      split at h
+      · cases h
+      · rename_i rest' r'' av'' dl' lg' hrest
+        simp only [Option.some.injEq, Prod.mk.injEq] at h
+        obtain ⟨_, rfl, _, _, rfl⟩ := h
+        obtain ⟨ih1, ih2⟩ := ih _ _ _ _ _ _ _ hrest
+        obtain ⟨_, _, _, _, hchar⟩ := update_char ab r av t es o ho
+        obtain ⟨_, _, _, hreader, _⟩ := hchar
+        have hcan : ∀ x, canonIds o.reader x = canonIds r x := by
+          intro x; rw [hreader]; exact canonIds_foldl_consume _ _ _
+        constructor
+        · simp only [List.map_append, List.flatMap_cons, invocation_log_canonical ab r av t es o ho, ih1]
+          have : canonIds o.reader = canonIds r := funext hcan
+          rw [this]
+        · intro x; rw [ih2, hcan]
+
+/-- non-vacuity: a failing blocker in front does not stop the later condition from being invoked, and an inactive
+    input still drives its condition -/
+example :
+    let b : InputBind := { input := .key 0 {}, ignored := false, conds := [Cond.scripted 5 Kind.explicit [AState.none]] }
+    let cs : List Cond := [Cond.scripted 7 Kind.blocker [AState.none], Cond.scripted 8 Kind.explicit [AState.fired]]
+    let ab : ActionBind := { action := 0, dim := .bool, consume := true, accum := .cumulative, conds := cs, bindings := [b] }
+    (match ab.update { raw := {} } [(0, ActionData.new .bool)] ⟨0, 1⟩ [0] with
+     | some o => o.log.map Inv.id
+     | none => []) = [5, 7, 8] := by
+  decide
+
 end BEI.Props.C12
